@@ -92,7 +92,7 @@ inductive MOp
   | dump
   deriving DecidableEq, Repr
 
-inductive Ret
+inductive MRet
   | unit
   | nat (n : Nat)
   | bool (b : Bool)
@@ -314,7 +314,7 @@ def mConsume (rank ty : String) (s : MState) : Option (List Row × MState) :=
     | none => none
   else none
 
-def step (op : MOp) (s : MState) : Option (Ret × MState) :=
+def step (op : MOp) (s : MState) : Option (MRet × MState) :=
   match op with
   | .beginCollect p => some (.unit, mBegin p s)
   | .endCollect => (mEnd s).map (fun s' => (.unit, s'))
@@ -338,7 +338,7 @@ def step (op : MOp) (s : MState) : Option (Ret × MState) :=
   | .dump => some (.dump s.metrics, s)
 
 /-- run a list of calls, collecting the returned values -/
-def runOps : List MOp → MState → Option (List Ret × MState)
+def runOps : List MOp → MState → Option (List MRet × MState)
   | [], s => some ([], s)
   | op :: rest, s => do
     let (r, s1) ← step op s
@@ -348,9 +348,9 @@ def runOps : List MOp → MState → Option (List Ret × MState)
 /-- a client of the class: every next call may depend on what the previous ones returned -/
 inductive Prog
   | done
-  | call (op : MOp) (k : Ret → Prog)
+  | call (op : MOp) (k : MRet → Prog)
 
-def Prog.run : Prog → MState → Option (List Ret × MState)
+def Prog.run : Prog → MState → Option (List MRet × MState)
   | .done, s => some ([], s)
   | .call op k, s => do
     let (r, s1) ← step op s
@@ -358,7 +358,7 @@ def Prog.run : Prog → MState → Option (List Ret × MState)
     pure (r :: rs, s2)
 
 /-- one collection session: `beginCollect(prefix)`, the client, `endCollect()` -/
-def session (p : Option String) (client : Prog) (s : MState) : Option (List Ret × MState) := do
+def session (p : Option String) (client : Prog) (s : MState) : Option (List MRet × MState) := do
   let (_, s1) ← step (.beginCollect p) s
   let (rs, s2) ← client.run s1
   let (_, s3) ← step .endCollect s2
